@@ -1,6 +1,12 @@
 /* proof units for /repo/lbuf.c - the real file, included verbatim */
 #include "pre.h"
 #include "lbuf.c"
+#ifdef UNIT_LB_BOUNDED	/* bounded unit: CBMC's own models of the libc string functions */
+#define NO_STUB_MEMCPY
+#define NO_STUB_MEMMOVE
+#define NO_STUB_STRLEN
+#define NO_STUB_STRCHR
+#endif
 #define STRLEN_HOOK
 #define MEMCPY_HOOK
 #ifdef UNIT_LBUF_WR
